@@ -743,6 +743,12 @@ func (cx *c03ctx) exec(line string) {
 				}
 				r.Fail(sig, fmt.Sprintf("SetCellHyperLink(%s, %q) then GetCellHyperLink(%s) = %v %q (%v)", sp, link, sp, found, target, err), ln, cx.replay())
 			}
+			// cell names are case-insensitive: the other spellings of the cell report the same link
+			for _, other := range []string{c03name(c, ro), strings.ToLower(c03name(c, ro))} {
+				if f2, t2, e2 := cx.f.GetCellHyperLink(c03Sheet, other); e2 != nil || !f2 || t2 != link {
+					r.Fail("hyperlink:readback-other-spelling", fmt.Sprintf("SetCellHyperLink(%s, %q) then GetCellHyperLink(%s) = %v %q (%v)", sp, link, other, f2, t2, e2), ln, cx.replay())
+				}
+			}
 		}
 	case "hlrm":
 		sp := unhx(w[1])
@@ -1490,6 +1496,9 @@ func (g *c03gen) transcript(mode, nOps int) {
 				cx.exec("hlget " + hx(cell))
 			default:
 				cx.exec(fmt.Sprintf("hl %s %s", hx(cell), hx(fmt.Sprintf("Sheet1!A%d", rng.Range(1, 9)))))
+				// read back through the other spellings of the same cell, and at another position
+				cx.exec("hlget " + hx(c03name(c, r)))
+				cx.exec("hlget " + hx(strings.ToLower(c03name(c, r))))
 				c2, r2 := g.pos(mode)
 				cx.exec("hlget " + hx(g.spell(c2, r2)))
 			}
@@ -1531,6 +1540,7 @@ var c03witnesses = [][]string{
 	{"new 1", "mrg B4 C5", "mrg C2 E4", "gm"},                             // cross
 	{"new 1", "mrg A2 C2", "unm B1 B3", "gm"},                                                // unmerge by a crossing range
 	{"new 2", "set str A1 sst " + c03tokS("anchor") + " ~", "set int B2 tv ~ " + hx("7"), "mrg A1 B2", "get B2", "set str b2 sst " + c03tokS("via b2") + " ~", "get A1", "obs 1 1 3 3"},
+	{"new 1", "hl b2 " + hx("Sheet1!A40"), "hlget B2", "hl C3 " + hx("Sheet1!A1"), "hl c3 " + hx("Sheet1!A2"), "hlget C3", "hlget c3", "hlrm C3", "hlget c3", "hlget $b$2"}, // no merged cells: spellings still denote one cell
 	{"new 1", "mrg A1 B2", "TIME B2", "gsty A1", "gsty B2"},                                  // date style lands on the raw cell
 	{"new 1", "mrg A1 B2", "hl B2 " + hx("Sheet1!C3"), "hlget A1", "hlget b2", "hlget $A$2", "hlget C1", "hl a1 " + hx("Sheet1!D4"), "hlget B1",
 		"hl C1 " + hx("x"), "unm A1 A1", "hlget B2", "hlget A1", "hlrm A1", "hlget A1", "hlget C1", "hlrm XFE1", "hlget A0"},                                       // hyperlink read is not redirected
